@@ -238,6 +238,7 @@ struct Runner {
     dirs: Vec<String>,
     cfg: Config,
     store: Option<RaftLog<VT>>,
+    dump: Option<raft_log::Dump<VT>>,
     stopped: bool,
     timeout: Duration,
 }
@@ -314,6 +315,7 @@ impl Runner {
     }
 
     fn cleanup(&mut self) {
+        self.dump = None;
         self.kill_store();
         gate::set_mode(Mode::Free);
         gate::wait_all_exited(Duration::from_secs(2));
@@ -954,6 +956,100 @@ impl Runner {
                 let _b = BypassGuard::new();
                 let _ = std::fs::remove_dir_all(&d);
             }
+            ["lockrace", t, p, n] => {
+                let (Ok(t), Ok(p), Ok(n)) = (t.parse::<u32>(), p.parse::<u32>(), n.parse::<u32>()) else {
+                    return self.emit("bad-op");
+                };
+                if self.store.is_some() {
+                    return self.emit("bad-op");
+                }
+                gate::set_mode(Mode::Free);
+                let dir = self.dir.clone();
+                let exe = std::env::current_exe().unwrap();
+                let mut kids = vec![];
+                for k in 0..p {
+                    let c = std::process::Command::new(&exe)
+                        .args(["--contender", &dir, &n.to_string(), &(1000 + k).to_string()])
+                        .stdout(std::process::Stdio::piped())
+                        .spawn();
+                    if let Ok(c) = c {
+                        kids.push(c);
+                    }
+                }
+                let mut hs = vec![];
+                for k in 0..t {
+                    let d = dir.clone();
+                    hs.push(std::thread::spawn(move || contender(&d, n, 1 + k as u64)));
+                }
+                let (mut g, mut r, mut v) = (0u32, 0u32, vec![]);
+                for h in hs {
+                    match h.join() {
+                        Ok((a, b, c)) => {
+                            g += a;
+                            r += b;
+                            v.extend(c);
+                        }
+                        Err(_) => v.push("contender panicked".to_string()),
+                    }
+                }
+                for k in kids {
+                    match k.wait_with_output() {
+                        Ok(o) => {
+                            let out = String::from_utf8_lossy(&o.stdout).into_owned();
+                            let mut it = out.lines();
+                            if let Some(first) = it.next() {
+                                let f: Vec<u32> = first.split_whitespace().filter_map(|x| x.parse().ok()).collect();
+                                if f.len() == 3 {
+                                    g += f[0];
+                                    r += f[1];
+                                }
+                            }
+                            for l in it {
+                                if let Some(x) = l.strip_prefix("violation ") {
+                                    v.push(format!("(process) {}", x));
+                                }
+                            }
+                        }
+                        Err(_) => v.push("contender process failed".to_string()),
+                    }
+                }
+                gate::wait_all_exited(self.timeout);
+                gate::set_mode(Mode::Gated);
+                let _ = gate::take_lines();
+                {
+                    let mut st = gate::g().m.lock().unwrap();
+                    st.files.clear();
+                }
+                self.sync_file_table();
+                v.sort();
+                v.dedup();
+                self.emit(&format!(
+                    "lockrace violations={} [{}] # granted={} refused={}",
+                    v.len(),
+                    v.join("; "),
+                    g,
+                    r
+                ));
+            }
+            ["dumpopen"] => {
+                let cfg = Arc::new(self.cfg.clone());
+                match catch_unwind(AssertUnwindSafe(|| raft_log::Dump::<VT>::new(cfg))) {
+                    Ok(Ok(d)) => {
+                        self.dump = Some(d);
+                        self.flush_events();
+                        self.emit("dumpopen ok");
+                    }
+                    Ok(Err(e)) => {
+                        self.flush_events();
+                        self.emit(&format!("dumpopen err {}", err_kind(&e)));
+                    }
+                    Err(_) => self.emit("dumpopen panic"),
+                }
+            }
+            ["dumpdrop"] => {
+                self.dump = None;
+                self.emit("dumpdrop");
+            }
             ["enc", rec @ ..] => match parse_record(rec) {
                 Some(r) => {
                     let mut bs = vec![];
@@ -992,9 +1088,89 @@ impl Runner {
     }
 }
 
+/// One contender of the lock race (C13): repeatedly tries to open the directory as a store or
+/// as a dump. Ownership is witnessed by an `OWNER` file created with `create_new`: a second
+/// concurrent owner, in this or any other process, would find it present.
+fn contender(dir: &str, iters: u32, seed: u64) -> (u32, u32, Vec<String>) {
+    let mut granted = 0;
+    let mut refused = 0;
+    let mut violations = vec![];
+    let mut x = seed.wrapping_mul(0x9E3779B97F4A7C15) | 1;
+    let owner = format!("{}/OWNER", dir);
+    for _ in 0..iters {
+        x ^= x << 13;
+        x ^= x >> 7;
+        x ^= x << 17;
+        let as_dump = x % 3 == 0;
+        let cfg = Arc::new(Config::new(dir));
+        let before = gate::thread_events();
+        enum H {
+            S(RaftLog<VT>),
+            D(raft_log::Dump<VT>),
+        }
+        let r = if as_dump {
+            raft_log::Dump::<VT>::new(cfg).map(H::D)
+        } else {
+            RaftLog::<VT>::open(cfg).map(H::S)
+        };
+        match r {
+            Ok(h) => {
+                granted += 1;
+                match std::fs::OpenOptions::new().write(true).create_new(true).open(&owner) {
+                    Ok(_) => {}
+                    Err(_) => violations.push("two owners at the same time".to_string()),
+                }
+                if let H::S(mut s) = h {
+                    let t = std::time::SystemTime::now()
+                        .duration_since(std::time::UNIX_EPOCH)
+                        .map(|d| d.as_nanos() as u64)
+                        .unwrap_or(0);
+                    let _ = s.save_vote((t, 0));
+                    let _ = s.flush(None);
+                    if x % 5 == 0 {
+                        std::thread::sleep(Duration::from_micros(x % 300));
+                    }
+                    let _ = std::fs::remove_file(&owner);
+                    drop(s);
+                } else {
+                    if x % 5 == 0 {
+                        std::thread::sleep(Duration::from_micros(x % 300));
+                    }
+                    let _ = std::fs::remove_file(&owner);
+                    drop(h);
+                }
+            }
+            Err(e) => {
+                refused += 1;
+                if err_kind(&e) != "locked" {
+                    violations.push(format!("refused with an unexpected error: {}", e));
+                }
+                if gate::thread_events() != before {
+                    violations.push("a refused attempt touched a chunk file".to_string());
+                }
+            }
+        }
+    }
+    (granted, refused, violations)
+}
+
 fn main() {
     // keep panics quiet: they are observations, reported as `panic`
     std::panic::set_hook(Box::new(|_| {}));
+    let args: Vec<String> = std::env::args().collect();
+    if args.len() == 5 && args[1] == "--contender" {
+        raft_log::verif_hooks::set_handler(Box::new(gate::on_event));
+        gate::set_mode(Mode::Free);
+        {
+            gate::g().m.lock().unwrap().dir = args[2].clone();
+        }
+        let (g, r, v) = contender(&args[2], args[3].parse().unwrap_or(10), args[4].parse().unwrap_or(1));
+        println!("{} {} {}", g, r, v.len());
+        for x in v {
+            println!("violation {}", x);
+        }
+        return;
+    }
     let base = {
         let root = std::env::var("RLV_TMP").unwrap_or_else(|_| {
             std::env::temp_dir().to_string_lossy().into_owned()
@@ -1019,6 +1195,7 @@ fn main() {
         dirs: vec![],
         cfg: Config::new(""),
         store: None,
+        dump: None,
         stopped: false,
         timeout: Duration::from_millis(timeout),
     };
